@@ -81,14 +81,29 @@ fn static_cache_with_failing_reload(out: &mut Outcome) {
         return;
     }
     cache.enhance_hot_reloading();
-    let Some(tid) = reloader_tids().difference(&before).next().copied() else { return };
+    // (the thread names itself when it starts running: wait for that)
+    let t = Instant::now();
+    let mut tid = None;
+    while tid.is_none() && t.elapsed() < Duration::from_secs(2) {
+        tid = reloader_tids().difference(&before).next().copied();
+        if tid.is_none() {
+            std::thread::sleep(Duration::from_millis(1));
+        }
+    }
+    let Some(tid) = tid else {
+        out.label("static:no-tid");
+        return;
+    };
     src.tree().remove("part", "v");
     src.tree().put("manifest", "v", b"2".to_vec(), Variant::Buffer);
     src.send(&OwnedEntry::File("manifest".into(), "v".into()));
     src.send(&OwnedEntry::File("part".into(), "v".into()));
     // let the failing reload happen
     std::thread::sleep(Duration::from_millis(300));
-    let Some((a, _)) = ticks_of(tid) else { return };
+    let Some((a, _)) = ticks_of(tid) else {
+        out.label("static:no-ticks");
+        return;
+    };
     let reads_a = src.take_log().len();
     std::thread::sleep(Duration::from_millis(400));
     let reads_b = src.take_log().len();
